@@ -312,7 +312,8 @@ fn plan(property: &str, tier: &str) -> Vec<(&'static str, usize)> {
 /// seconds for all of them together (a cap that is hit is reported, never hidden).
 pub fn add(run: &mut Run, kf: &KnownFindings, property: &str, tier: &str, wall: u64) {
     let classify = kf.classifier(property);
-    let mut plan = plan(property, tier);
+    // thorough = everything the quick tier explores (first), plus the deeper plan
+    let mut plan = if tier == "quick" { plan(property, tier) } else { merge_plans(plan(property, "quick"), plan(property, tier)) };
     // VERIF_PLAN="alloc:7,edit:5" overrides the plan (calibration / debugging only).
     let leaked: &'static str =
         Box::leak(std::env::var("VERIF_PLAN").unwrap_or_default().into_boxed_str());
@@ -381,6 +382,14 @@ pub fn crash_worker(spec: &str) {
     seqx::worker_loop::<crate::crashx::CrashSys>(&cfg, &format!("crashx-w-{spec}"));
 }
 
+/// Quick entries first; an entry that the deeper plan repeats at the same or a greater depth
+/// is dropped from the front.
+pub fn merge_plans(quick: Vec<(&'static str, usize)>, deep: Vec<(&'static str, usize)>) -> Vec<(&'static str, usize)> {
+    let mut out: Vec<(&'static str, usize)> = quick.into_iter().filter(|(p, d)| !deep.iter().any(|(q, e)| q == p && e >= d)).collect();
+    out.extend(deep);
+    out
+}
+
 /// (profile, depth) of the crash-image exploration per property and tier.
 fn crash_plan(property: &str, tier: &str) -> Vec<(&'static str, usize)> {
     let quick = tier == "quick";
@@ -405,7 +414,7 @@ fn crash_plan(property: &str, tier: &str) -> Vec<(&'static str, usize)> {
 
 pub fn add_crash(run: &mut Run, kf: &KnownFindings, property: &str, tier: &str, wall: u64) {
     let classify = kf.classifier(property);
-    let plan = crash_plan(property, tier);
+    let plan = if tier == "quick" { crash_plan(property, tier) } else { merge_plans(crash_plan(property, "quick"), crash_plan(property, tier)) };
     let t0 = std::time::Instant::now();
     let n = plan.len();
     for (i, (pname, depth)) in plan.into_iter().enumerate() {
